@@ -100,6 +100,10 @@
 // Teaching agent (Claude-powered onboarding)
 pub mod agent;
 
+// Verification hooks (only with --cfg inputlayer_verif)
+#[cfg(inputlayer_verif)]
+pub mod verif_hooks;
+
 // AST and IR modules (consolidated from crates/)
 pub mod ast;
 pub mod derived_relations; // Derived relation materialization
